@@ -401,7 +401,7 @@ class Program:
         return (loc, tuple(out))
 
     def _pop(self, op):
-        if op[0] in ("copy", "move"):
+        if op[0] in ("copy", "move", "nrcopy"):
             return (op[0], self._pp(op[1]))
         return op
 
@@ -964,6 +964,16 @@ class Exec:
         k = op[0]
         if k == "copy" or k == "move":
             return self.read(fr, op[1])
+        if k == "nrcopy":
+            # `no_retag copy` of a Box/Rc that is represented transparently (the pointee value itself):
+            # keep the aliasing - the copy is a pointer to the original place, not a second pointee
+            cell, path = self.loc(fr, op[1])
+            v = getp(cell.v, path) if path else cell.v
+            if v is None:
+                raise ExecError("read of uninitialised %r" % (op[1],))
+            if type(v) in (Ref, BoxU) or not op[1][1]:
+                return v
+            return Ref(cell, path)
         return self.const(op[1])
 
     def const(self, c):
@@ -1263,6 +1273,10 @@ class Exec:
                     raise ExecError("reached `unreachable` in %s bb%d" % (f.name, bb))
                 else:
                     raise ExecError("terminator %r in %s" % (k, f.name))
+        except (ExecError, Unmodelled) as e:
+            if not hasattr(e, "stack"):
+                e.stack = list(self.callstack[-4:]) + ["bb%d" % bb]
+            raise
         finally:
             self.depth -= 1
             self.callstack.pop()
